@@ -141,25 +141,30 @@ theorem Response.decode_readDiscreteInputs (bc : UInt8) (rest : Bytes) (h : bc.t
     Res.bind'_ok, Rsp.fc_new_02, minResponsePduLen, List.getElem?_cons_succ, hl, Rsp.slice_cons2_take _ _ _ _ h]
   simp
 
+/-- register reads: code, byte count `bc`, `bc` bytes; the value keeps the `bc / 2` WHOLE registers — a
+    dangling odd byte is not part of the decoded `Data` (anything after the `bc` bytes is ignored) -/
 theorem Response.decode_readHoldingRegisters (bc : UInt8) (rest : Bytes) (h : bc.toNat ≤ rest.length) :
-    Response.decode (0x03 :: bc :: rest) = .ok (.readHoldingRegisters ⟨rest.take bc.toNat, bc.toNat / 2⟩) := by
+    Response.decode (0x03 :: bc :: rest) = .ok (.readHoldingRegisters ⟨rest.take (bc.toNat / 2 * 2), bc.toNat / 2⟩) := by
   have hl : ¬ (bc.toNat + 2 > (0x03 :: bc :: rest).length) := by simp only [List.length_cons]; omega
+  have h2 : bc.toNat / 2 * 2 ≤ rest.length := by omega
   simp only [Response.decode, List.isEmpty_cons, Bool.false_eq_true, if_false, idx, List.getElem?_cons_zero,
-    Res.bind'_ok, Rsp.fc_new_03, minResponsePduLen, List.getElem?_cons_succ, hl, Rsp.slice_cons2_take' _ _ _ _ h]
+    Res.bind'_ok, Rsp.fc_new_03, minResponsePduLen, List.getElem?_cons_succ, hl, Rsp.slice_cons2_take' _ _ _ _ h2]
   simp
 
 theorem Response.decode_readInputRegisters (bc : UInt8) (rest : Bytes) (h : bc.toNat ≤ rest.length) :
-    Response.decode (0x04 :: bc :: rest) = .ok (.readInputRegisters ⟨rest.take bc.toNat, bc.toNat / 2⟩) := by
+    Response.decode (0x04 :: bc :: rest) = .ok (.readInputRegisters ⟨rest.take (bc.toNat / 2 * 2), bc.toNat / 2⟩) := by
   have hl : ¬ (bc.toNat + 2 > (0x04 :: bc :: rest).length) := by simp only [List.length_cons]; omega
+  have h2 : bc.toNat / 2 * 2 ≤ rest.length := by omega
   simp only [Response.decode, List.isEmpty_cons, Bool.false_eq_true, if_false, idx, List.getElem?_cons_zero,
-    Res.bind'_ok, Rsp.fc_new_04, minResponsePduLen, List.getElem?_cons_succ, hl, Rsp.slice_cons2_take' _ _ _ _ h]
+    Res.bind'_ok, Rsp.fc_new_04, minResponsePduLen, List.getElem?_cons_succ, hl, Rsp.slice_cons2_take' _ _ _ _ h2]
   simp
 
 theorem Response.decode_readWriteMultipleRegisters (bc : UInt8) (rest : Bytes) (h : bc.toNat ≤ rest.length) :
-    Response.decode (0x17 :: bc :: rest) = .ok (.readWriteMultipleRegisters ⟨rest.take bc.toNat, bc.toNat / 2⟩) := by
+    Response.decode (0x17 :: bc :: rest) = .ok (.readWriteMultipleRegisters ⟨rest.take (bc.toNat / 2 * 2), bc.toNat / 2⟩) := by
   have hl : ¬ (bc.toNat + 2 > (0x17 :: bc :: rest).length) := by simp only [List.length_cons]; omega
+  have h2 : bc.toNat / 2 * 2 ≤ rest.length := by omega
   simp only [Response.decode, List.isEmpty_cons, Bool.false_eq_true, if_false, idx, List.getElem?_cons_zero,
-    Res.bind'_ok, Rsp.fc_new_17, minResponsePduLen, List.getElem?_cons_succ, hl, Rsp.slice_cons2_take' _ _ _ _ h]
+    Res.bind'_ok, Rsp.fc_new_17, minResponsePduLen, List.getElem?_cons_succ, hl, Rsp.slice_cons2_take' _ _ _ _ h2]
   simp
 
 /-- Write Single Coil response: the decoder needs only code and address; whatever follows
@@ -228,7 +233,7 @@ theorem Response.decode_spec_readHoldingRegisters (ws : List UInt16) (h : 2 * ws
   have hl : (Spec.wordsBE ws).length = 2 * ws.length := by rw [wordsBE_length]; omega
   simp only [Spec.rspBytes]
   rw [Response.decode_readHoldingRegisters _ _ (by rw [ht, hl]; exact Nat.le_refl _), ht,
-    List.take_of_length_le (by rw [hl]; exact Nat.le_refl _)]
+    List.take_of_length_le (by rw [hl]; omega)]
   congr 3; omega
 
 theorem Response.decode_spec_readInputRegisters (ws : List UInt16) (h : 2 * ws.length ≤ 255) :
@@ -238,7 +243,7 @@ theorem Response.decode_spec_readInputRegisters (ws : List UInt16) (h : 2 * ws.l
   have hl : (Spec.wordsBE ws).length = 2 * ws.length := by rw [wordsBE_length]; omega
   simp only [Spec.rspBytes]
   rw [Response.decode_readInputRegisters _ _ (by rw [ht, hl]; exact Nat.le_refl _), ht,
-    List.take_of_length_le (by rw [hl]; exact Nat.le_refl _)]
+    List.take_of_length_le (by rw [hl]; omega)]
   congr 3; omega
 
 theorem Response.decode_spec_readWriteMultipleRegisters (ws : List UInt16) (h : 2 * ws.length ≤ 255) :
@@ -248,7 +253,7 @@ theorem Response.decode_spec_readWriteMultipleRegisters (ws : List UInt16) (h : 
   have hl : (Spec.wordsBE ws).length = 2 * ws.length := by rw [wordsBE_length]; omega
   simp only [Spec.rspBytes]
   rw [Response.decode_readWriteMultipleRegisters _ _ (by rw [ht, hl]; exact Nat.le_refl _), ht,
-    List.take_of_length_le (by rw [hl]; exact Nat.le_refl _)]
+    List.take_of_length_le (by rw [hl]; omega)]
   congr 3; omega
 
 /-- the specification's five-byte Write Single Coil response is accepted; the address comes back -/
